@@ -122,7 +122,8 @@ impl Kind {
             Kind::CharSlice => n(true, true, true, false, false),
             Kind::Str | Kind::CtxStr | Kind::MapSpanStr => n(true, false, true, true, true),
             Kind::Bytes => n(true, false, true, true, false),
-            Kind::MappedSlice => n(true, true, false, false, false),
+            Kind::MappedSlice => n(true, true, true, false, false),
+            Kind::MappedBytes | Kind::MappedStr => n(false, false, true, false, false),
             Kind::StreamExact => n(false, false, true, false, false),
             _ => Need::default(),
         }
@@ -474,6 +475,35 @@ pub fn compare(ref_kind: Kind, kind: Kind, reference: &Outcome, observed: &Outco
     } else {
         exp.map_spans(&*rb);
     }
+    // "the rest of the input" (InputRef::span_from). Unmapped kinds: the ordinary re-basing. Mapped kinds:
+    // the span must START where the span of any other non-empty range starting at that token starts
+    // (the first token's own span start, with the end-of-input span's context) and END at the end of
+    // the end-of-input span handed to Input::map (documented: that span is what spans "that extend to
+    // the end of the input" are made from) or at the end of the last token; an empty rest is compared
+    // among the mapped kinds only, like every empty range.
+    {
+        let mut er = Vec::new();
+        exp.rest_spans_mut(&mut er);
+        let mut or = Vec::new();
+        obs.rest_spans_mut(&mut or);
+        if kind.is_mapped() && er.len() == or.len() {
+            let m = &env.mspans;
+            for (e, o) in er.into_iter().zip(or.into_iter()) {
+                let (k, n) = (e.1, e.2);
+                if k < n && n <= m.len() {
+                    let end = if o.2 == env.eoi.1 { env.eoi.1 } else { m[n - 1].1 };
+                    *e = Sp(EOI_CTX, m[k].0, end);
+                } else {
+                    *e = Sp::MASKED;
+                    *o = Sp::MASKED;
+                }
+            }
+        } else {
+            for e in er {
+                *e = rb(*e);
+            }
+        }
+    }
     let cmp = if exp == obs {
         Cmp::Equal
     } else if exp.positions_only() == obs.positions_only() {
@@ -505,6 +535,10 @@ pub struct Replay {
     pub observed: Outcome,
     /// For the mapped-kinds-agree check: the other kind.
     pub against: Option<Kind>,
+    /// For the mapped-kinds-agree check: `kind` ran the BY-VALUE TWIN of the grammar (gram::by_value_twin),
+    /// `against` the grammar itself; both give the same result on the reference representation.
+    #[serde(default)]
+    pub twin: bool,
 }
 
 pub fn gen_mspans(rng: &mut Rng, n: usize) -> (Vec<(usize, usize)>, (usize, usize)) {
@@ -949,7 +983,7 @@ impl SrcSim {
                 kinds.push(Kind::CharSlice);
                 kinds.extend_from_slice(CHAR_KINDS);
             }
-            let mut mapped_obs: Vec<(Kind, Outcome, Env)> = Vec::new();
+            let mut mapped_obs: Vec<(Kind, Outcome, Env, bool)> = Vec::new();
             for kind in kinds {
                 if kind == Kind::Array && !matches!(syms.len(), 1 | 3 | 6) {
                     continue;
@@ -1063,6 +1097,7 @@ impl SrcSim {
                             expected: exp,
                             observed: obs,
                             against: None,
+                            twin: false,
                         };
                         let cl = rp.class.clone();
                         self.violation(acc, seed, idx, &cl, rp);
@@ -1074,7 +1109,7 @@ impl SrcSim {
                         if kind == Kind::CtxOfMappedStream {
                             o.map_spans(&|s: Sp| if s.0 == CTX { Sp(EOI_CTX, s.1, s.2) } else { s });
                         }
-                        mapped_obs.push((kind, o, env.clone()));
+                        mapped_obs.push((kind, o, env.clone(), false));
                     }
                     acc.sample("samples", idx, 6, || {
                         json!({
@@ -1123,10 +1158,34 @@ impl SrcSim {
                     }
                 }
             }
+            // Grammars that take tokens by reference run on one mapped kind only (the slice of pairs), so
+            // nothing would be compared with its empty spans: the by-value twin of the grammar — same
+            // result on the reference representation, checked here, not assumed — runs on mapped kinds as
+            // well and joins the comparison: whatever the re-basing of an empty range is, it is one
+            // function of the range, not of how the tokens before it were taken.
+            if need.borrow && !mapped_obs.is_empty() && !long {
+                let g2 = gram::by_value_twin(g);
+                let r2 = run_kind(&g2, syms, ref_kind, mode, &base_env, (REF_TICK_CAP, u64::MAX, u64::MAX));
+                if r2.outcome == reference {
+                    let need2 = gram::needs_caps(&g2);
+                    for kind in [Kind::MappedSlice, Kind::MappedStream] {
+                        if !need2.satisfied_by(&kind.caps()) {
+                            continue;
+                        }
+                        let mut env = base_env.clone();
+                        env.hint = Hint::Exact;
+                        let run = run_kind(&g2, syms, kind, mode, &env, src_budget(w, syms.len()));
+                        acc.inc("replica_runs.by_value_twin_on_mapped_kinds");
+                        mapped_obs.push((kind, run.outcome, env, true));
+                    }
+                } else {
+                    acc.inc("by_value_twin.differs_on_reference(skipped, not C10)");
+                }
+            }
             // mapped kinds must agree with each other exactly, empty spans included
             for i in 1..mapped_obs.len() {
-                let (k0, o0, _) = &mapped_obs[0];
-                let (k1, o1, e1) = &mapped_obs[i];
+                let (k0, o0, _, _) = &mapped_obs[0];
+                let (k1, o1, e1, twin) = &mapped_obs[i];
                 acc.inc("evaluations.mapped_pair_comparisons");
                 if o0.positions_only() != o1.positions_only() {
                     let rp = Replay {
@@ -1141,10 +1200,11 @@ impl SrcSim {
                         kind: *k1,
                         mode,
                         env: e1.clone(),
-                        class: format!("mapped-disagree:{:?}-vs-{:?}:{:?}", k0, k1, mode),
+                        class: format!("mapped-disagree:{:?}-vs-{:?}{}:{:?}", k0, k1, if *twin { "(by-value twin)" } else { "" }, mode),
                         expected: o0.clone(),
                         observed: o1.clone(),
                         against: Some(*k0),
+                        twin: *twin,
                     };
                     let cl = rp.class.clone();
                     self.violation(acc, seed, idx, &cl, rp);
@@ -1328,9 +1388,18 @@ pub fn replay(rp: &Replay) -> Option<(String, Outcome, Outcome)> {
     let base_env = Env { policy: ReaderPolicy::full(), reader_seed: 0, trace: None, hint: Hint::Exact, mspans: rp.env.mspans.clone(), eoi: rp.env.eoi, ascii_chars: false };
     if let Some(k0) = rp.against {
         let a = run_kind(&rp.grammar, &rp.syms, k0, rp.mode, &rp.env, (REF_TICK_CAP * 16, u64::MAX, u64::MAX));
-        let b = run_kind(&rp.grammar, &rp.syms, rp.kind, rp.mode, &rp.env, (REF_TICK_CAP * 16, u64::MAX, u64::MAX));
+        let gb = if rp.twin { gram::by_value_twin(&rp.grammar) } else { rp.grammar.clone() };
+        if rp.twin {
+            // the twin only counts where both grammars agree on the reference representation
+            let ra = run_kind(&rp.grammar, &rp.syms, ref_kind, rp.mode, &base_env, (REF_TICK_CAP, u64::MAX, u64::MAX));
+            let rb = run_kind(&gb, &rp.syms, ref_kind, rp.mode, &base_env, (REF_TICK_CAP, u64::MAX, u64::MAX));
+            if ra.outcome != rb.outcome {
+                return None;
+            }
+        }
+        let b = run_kind(&gb, &rp.syms, rp.kind, rp.mode, &rp.env, (REF_TICK_CAP * 16, u64::MAX, u64::MAX));
         if a.outcome.positions_only() != b.outcome.positions_only() {
-            return Some((format!("mapped-disagree:{:?}-vs-{:?}:{:?}", k0, rp.kind, rp.mode), a.outcome, b.outcome));
+            return Some((format!("mapped-disagree:{:?}-vs-{:?}{}:{:?}", k0, rp.kind, if rp.twin { "(by-value twin)" } else { "" }, rp.mode), a.outcome, b.outcome));
         }
         return None;
     }
